@@ -62,6 +62,8 @@ pub struct Report {
     pub traces: u64,
     pub evaluations: u64,
     pub nontrivial: u64,
+    /// hashes of keyed non-trivial cases (counted once however often they are executed)
+    pub nt_keys: std::collections::HashSet<u64>,
     pub rule: String,
     pub samples: Vec<Value>,
     pub exhaustive: bool,
@@ -94,6 +96,7 @@ impl Report {
             traces: 0,
             evaluations: 0,
             nontrivial: 0,
+            nt_keys: std::collections::HashSet::new(),
             rule: String::new(),
             samples: Vec::new(),
             exhaustive: false,
@@ -126,6 +129,14 @@ impl Report {
             let val = v();
             self.samples.push(val);
         }
+    }
+
+    /// Count a non-trivial case identified by `key` once, however often it is executed.
+    pub fn nontrivial_key(&mut self, key: &str) {
+        use std::hash::{Hash, Hasher};
+        let mut h = std::collections::hash_map::DefaultHasher::new();
+        key.hash(&mut h);
+        self.nt_keys.insert(h.finish());
     }
 
     pub fn outcome(&mut self, o: &str) {
@@ -200,7 +211,7 @@ impl Report {
         cov.insert("transitions".into(), json!(self.transitions.max(1)));
         cov.insert("traces_validated_against_impl".into(), json!(self.traces));
         cov.insert("evaluations".into(), json!(self.evaluations.max(1)));
-        cov.insert("distinct_nontrivial".into(), json!(self.nontrivial));
+        cov.insert("distinct_nontrivial".into(), json!(self.nontrivial + self.nt_keys.len() as u64));
         cov.insert("rule".into(), json!(self.rule));
         if self.samples.is_empty() {
             self.samples.push(json!("no sample recorded"));
@@ -256,7 +267,7 @@ impl Report {
             self.evaluations,
             self.states,
             self.transitions,
-            self.nontrivial,
+            self.nontrivial + self.nt_keys.len() as u64,
             self.outcomes.len(),
             self.violations,
             self.known_hits(),
